@@ -9,6 +9,7 @@ import WrglModel.Lemmas.C06Hdr
 import WrglModel.Gen.Facts
 import WrglModel.Lemmas.C06BIdx
 import WrglModel.Lemmas.C06Store
+import WrglModel.Lemmas.C06Profile
 namespace Wrgl
 
 /-! ties to the source -/
@@ -166,5 +167,28 @@ theorem C06_store_keys_distinct (H : Bytes → Bytes) (ops : List StoreOp) :
 /-- non-vacuity: a table profile refreshed over a stale one reads back as the fresh one -/
 example : (storeRun (fun _ => [9]) [] [.save .tableProfile [1] [10], .save .tableProfile [1] [20]]).get
     (ObjKind.tableProfile.pfx ++ [1]) = some [20] := by decide
+
+/-! table profile writer (Model/Profile.lean) -/
+
+/-- The profile writer succeeds exactly when every text it has to length-prefix with 16 bits (column
+    names, top values) fits: a value that does not fit the format is refused at write time, and nothing
+    else is. -/
+theorem C06_profile_written_iff_texts_fit (p : ProfileObj) :
+    (profileBytes Facts.writeStringGuard p).isOk = p.textsFit := by
+  rw [C06_fact_writeStringGuard]
+  exact profileBytes_isOk p
+
+theorem C06_profile_overlong_name_refused (p : ProfileObj) (c : ColProfile) (hc : c ∈ p.columns)
+    (h : c.name.length > 65535) : (profileBytes Facts.writeStringGuard p).isOk = false := by
+  rw [C06_profile_written_iff_texts_fit]
+  unfold ProfileObj.textsFit
+  apply Bool.eq_false_iff.mpr
+  intro hall
+  have := List.all_eq_true.mp hall c hc
+  unfold ColProfile.textsFit at this
+  have h2 : decide (c.name.length ≤ 65535) = true := by
+    cases hd : decide (c.name.length ≤ 65535) <;> simp [hd] at this ⊢
+  have := of_decide_eq_true h2
+  omega
 
 end Wrgl
